@@ -269,7 +269,7 @@ func (o *ORM) FindAll(ctx context.Context) ([]map[string]interface{}, error) {
 
 // Query executes a raw SQL query
 func (o *ORM) Query(ctx context.Context, query string, args ...interface{}) ([]map[string]interface{}, error) {
-	rows, err := o.db.Query(ctx, query, args...)
+	rows, err := o.query(ctx, query, args...)
 	if err != nil {
 		return nil, err
 	}
@@ -314,7 +314,7 @@ func (o *ORM) Create(ctx context.Context, data map[string]interface{}) (map[stri
 		strings.Join(sanitizedColumns, ", "),
 		strings.Join(placeholders, ", "))
 
-	row := o.db.QueryRow(ctx, query, values...)
+	row := o.queryRow(ctx, query, values...)
 
 	// Get column names for scanning
 	result, err := scanRow(row, columns)
@@ -361,7 +361,7 @@ func (o *ORM) Update(ctx context.Context, id interface{}, data map[string]interf
 		strings.Join(setClauses, ", "),
 		i)
 
-	row := o.db.QueryRow(ctx, query, values...)
+	row := o.queryRow(ctx, query, values...)
 
 	// Add id to columns for scanning
 	columns = append(columns, "id")
@@ -383,7 +383,7 @@ func (o *ORM) Delete(ctx context.Context, id interface{}) error {
 	}
 
 	query := fmt.Sprintf("DELETE FROM %s WHERE \"id\" = $1", sanitizedTable)
-	result, err := o.db.Exec(ctx, query, id)
+	result, err := o.exec(ctx, query, id)
 	if err != nil {
 		return err
 	}
@@ -438,7 +438,7 @@ func (o *ORM) Count(ctx context.Context, whereConds ...WhereCondition) (int64, e
 	}
 
 	var count int64
-	err = o.db.QueryRow(ctx, query, args...).Scan(&count)
+	err = o.queryRow(ctx, query, args...).Scan(&count)
 	return count, err
 }
 
@@ -651,6 +651,37 @@ func (o *ORM) Transaction(ctx context.Context, fn func(context.Context) error) e
 		txCtx := context.WithValue(ctx, txContextKey{}, tx)
 		return fn(txCtx)
 	})
+}
+
+// txFromContext returns the transaction ORM.Transaction stored in ctx, if any.
+func txFromContext(ctx context.Context) *sql.Tx {
+	tx, _ := ctx.Value(txContextKey{}).(*sql.Tx)
+	return tx
+}
+
+// query, queryRow and exec run a statement on the transaction carried by the
+// context when there is one, and on the connection pool otherwise. Without
+// this, work done through the ORM inside a Transaction callback ran outside
+// the transaction: it was neither rolled back on failure nor isolated.
+func (o *ORM) query(ctx context.Context, query string, args ...interface{}) (*sql.Rows, error) {
+	if tx := txFromContext(ctx); tx != nil {
+		return tx.QueryContext(ctx, query, args...)
+	}
+	return o.db.Query(ctx, query, args...)
+}
+
+func (o *ORM) queryRow(ctx context.Context, query string, args ...interface{}) *sql.Row {
+	if tx := txFromContext(ctx); tx != nil {
+		return tx.QueryRowContext(ctx, query, args...)
+	}
+	return o.db.QueryRow(ctx, query, args...)
+}
+
+func (o *ORM) exec(ctx context.Context, query string, args ...interface{}) (sql.Result, error) {
+	if tx := txFromContext(ctx); tx != nil {
+		return tx.ExecContext(ctx, query, args...)
+	}
+	return o.db.Exec(ctx, query, args...)
 }
 
 // Timestamp returns current timestamp
